@@ -289,8 +289,6 @@ def gen_exhaustive_small(rng, frac):
         for a in labs:
             for b in labs:
                 for cc in labs:
-                    if kind == "dstep" and a < 0 and b < 0 and cc < 0:
-                        continue   # crashes (see gen): kept at the end of the stream only
                     for g1 in gs:
                         for g2 in gs:
                             for g3 in gs:
@@ -300,10 +298,6 @@ def gen_exhaustive_small(rng, frac):
                                                     grads=[g1, g2, g3], base=[1.0, 2.0, 3.0], samples=[0, 1, 2], scalemode=1,
                                                     svals=[2.0, 0.5], sub=[2, 0, 0], extras=[[2, 1, 0]])))
     return ops
-
-
-DSTEP_CRASH_OP = ("wl dstep 0 0 0 1 2 1 1 S 2 -1 -1 3ff0000000000000 c000000000000000 0000000000000000 0000000000000000 "
-                  "2 0 1 0 1 4000000000000000 2 1 0 0")
 
 
 def gen(rng, tier):
@@ -319,19 +313,7 @@ def gen(rng, tier):
         if k % every == every // 2:
             ops.append(fmt(gen_affine_constant(rng)))
         c = gen_case(rng, small=rng.chance(0.15))
-        # the dstep learner dereferences an empty vector when a categorical feature is missing for every fitted sample
-        # (crash: the process dies, the ops behind it would be lost): such inputs are kept out of the random stream, one is
-        # run as the very last op of the stream
-        tries = 0
-        while c["kind"] == "dstep" and (all_missing_class_feature(c) or any(all_missing_class_feature(c, e) for e in c["extras"])):
-            c = gen_case(rng, kind="dstep")
-            tries += 1
-            if tries > 50:
-                c = None
-                break
-        if c is not None:
-            ops.append(fmt(c))
-    ops.append(DSTEP_CRASH_OP)
+        ops.append(fmt(c))
     return ops
 
 
@@ -453,9 +435,7 @@ def brute_affine(c, samples):
         miss = sse_zero([r for x, r in zip(xs, rs) if x is None])
         px = [x for x in xs if x is not None]
         pr = [r for x, r in zip(xs, rs) if x is not None]
-        if not px:
-            continue
-        if len(set(px)) < 2:
+        if len(set(px)) < 2:      # constant over the fitted samples, or no value at all: the class contains only constants / zero
             const.append((sse_const(pr, T) + miss, fi))
             continue
         n = len(px)
@@ -580,7 +560,7 @@ def oracle(aug, res):
     nofit = S["fit"] == ["nofit"]
     if nofit:
         if kind in OPTIMAL_KINDS and brute:
-            if rss_crit or kind in ("stump", "dense"):
+            if rss_crit:
                 return fail("optimal", f"no fit reported although the class contains a learner with RSS {min(b[0] for b in brute)!r}")
         return None
 
@@ -718,6 +698,18 @@ def oracle(aug, res):
             if v in lab2g and lab2g[v] != split[i]:
                 return fail("sample-only", f"label set {v} is mapped to groups {lab2g[v]} and {split[i]}")
             lab2g[v] = split[i]
+        # every table row was fitted from at least one fitted sample: split() must report it for some fitted sample
+        hashes = [int(w) for w in S["hashes"][1:]]
+        ukey = "kbest:unsorted-hashes" if kind == "kbest" and hashes != sorted(hashes) else None
+        seen = {split[i] for i in samples}
+        lost = [g for g in range(nrows) if g not in seen]
+        if lost:
+            return fail("split-table", f"table rows {lost} (of {nrows}, hashes {hashes}) are never reported by split() on the fitted "
+                                       f"samples (groups {sorted(seen)})", ukey)
+        if kind in ("kbest", "ksplit") and rss_crit:
+            prss = sum(sqerr(r, vecs[i]) for i, r in zip(samples, rs))
+            if not close(max(prss, CLAMP), score, tol):
+                return fail("reproduce", f"{kind}: the RSS of the fitted learner's predictions is {prss!r}, the reported score {score!r}", ukey)
         if kind == "dense":
             fitted = {fvalue(f, i) for i in samples if fvalue(f, i) is not None}
             gs = [lab2g[v] for v in fitted]
